@@ -5,6 +5,7 @@ import (
 	"errors"
 	gofs "io/fs"
 	gopath "path"
+	"sort"
 	"time"
 )
 
@@ -428,7 +429,19 @@ func ReadDir(fs FS, name string) ([]DirEntry, error) {
 		dirEntries, err := ReadDir(mountFS, subPath)
 		return dirEntries, stripErrPathPrefix(err, name, subPath)
 	}
-	return gofs.ReadDir(fs, name)
+	// like io/fs.ReadDir, but a directory that cannot be listed is reported as ErrNotImplemented
+	file, err := fs.Open(name)
+	if err != nil {
+		return nil, err
+	}
+	defer func() { _ = file.Close() }()
+	dirFile, ok := file.(DirReaderFile)
+	if !ok {
+		return nil, &PathError{Op: "readdir", Path: name, Err: ErrNotImplemented}
+	}
+	entries, err := dirFile.ReadDir(-1)
+	sort.Slice(entries, func(a, b int) bool { return entries[a].Name() < entries[b].Name() })
+	return entries, err
 }
 
 // ReadFile attempts to call an optimized fs.ReadFile(), falls back to io/fs.ReadFile().
